@@ -251,6 +251,21 @@ def diag(sc):
     return code, out
 
 
+def split_known(scs, failing):
+    """Lock-step failures that are the model rejecting the known class KF-C19-3 (Stuck 9 at the Quiesce guard in a scenario in which
+    the snapshot oracle identified exactly that class) are expected; everything else stays a disagreement."""
+    rest, known = [], []
+    for i in failing:
+        _, k3 = snapshot_oracle(scs[i])
+        if k3:
+            code, _ = diag(scs[i])
+            if code is not None and code % 100 == 3 and code // 1000000 == 9:
+                known.append(i)
+                continue
+        rest.append(i)
+    return rest, known
+
+
 def report_disagreements(rep, scs, failing, kind="broken-correspondence"):
     for i in failing[:3]:
         sc = scs[i]
@@ -331,16 +346,25 @@ def objects_alive(sc):
     return out
 
 
+KF3 = ("KF-C19-3 evicted-from-pending-capacity-without-release: a closed unreferenced record popped from pending_capacity by "
+       "assign_connection_capacity is never removed")
+
+
 def snapshot_oracle(sc):
     """O1: after every step every record in the slab has a reason to be there (not closed, a handle, a queue, reset expiry).
-    O2: Inner.refs = live Streams objects + sum of the records' ref_count.  O3: no `dangling store key` panic."""
+    O2: Inner.refs = live Streams objects + sum of the records' ref_count.  O3: no `dangling store key` panic.
+    Returns (violation | None, known-finding text | None).  Known class KF-C19-3: the leaked record's ONLY reason in the previous
+    snapshot was is_pending_send_capacity (Prioritize::assign_connection_capacity evicts it without transition_after)."""
     alive = objects_alive(sc)
+    known = None
+    leaked = set()
+    prev = None
     for j, st in enumerate(sc["trace"]):
         res = st["res"]
         if isinstance(res, dict) and "panic" in res:
             if "dangling store key" in str(res["panic"]):
-                return {"step": st["i"], "why": "stream storage reached through a stale key (panic)", "panic": res["panic"]}
-            return None      # other panics: not this property's oracle; the snapshot is unreliable afterwards
+                return {"step": st["i"], "why": "stream storage reached through a stale key (panic)", "panic": res["panic"]}, known
+            return None, known      # other panics: not this property's oracle; the snapshot is unreliable afterwards
         sn = st.get("snap")
         if not sn:
             continue
@@ -348,16 +372,23 @@ def snapshot_oracle(sc):
         tot = 0
         for s in sn["streams"]:
             tot += s["ref_count"]
-            if not rec_reasons(s):
+            if not rec_reasons(s) and s["serial"] not in leaked:
+                before = next((x for x in (prev["streams"] if prev else []) if x["serial"] == s["serial"]), None)
+                if before is not None and rec_reasons(before) == ["is_pending_send_capacity"]:
+                    leaked.add(s["serial"])
+                    known = KF3
+                    continue
                 return {"step": st["i"], "why": "a closed record without handle, queue membership or reset expiry is still stored (leak)",
-                        "stream": s["id"], "state": s["state"], "linked": s["linked"]}
+                        "stream": s["id"], "state": s["state"], "linked": s["linked"],
+                        "reasons_before": rec_reasons(before) if before else None}, known
         conn, nsr = alive[j]
         if c["refs"] != tot + nsr + (1 if conn else 0):
             return {"step": st["i"], "why": "Inner.refs differs from live Streams objects + handles", "refs": c["refs"], "handles": tot,
-                    "request_handles": nsr, "connection_alive": conn}
+                    "request_handles": nsr, "connection_alive": conn}, known
         if c["store_ids"] > c["store_slab"]:
-            return {"step": st["i"], "why": "more ids than records", "ids": c["store_ids"], "slab": c["store_slab"]}
-    return None
+            return {"step": st["i"], "why": "more ids than records", "ids": c["store_ids"], "slab": c["store_slab"]}, known
+        prev = sn
+    return None, known
 
 
 def teardown_marks(sc):
@@ -531,8 +562,14 @@ def oracle_store(rep, scs):
     stats = {"checked": 0}
     nontriv = 0
     for sc in scs:
-        v = snapshot_oracle(sc) or idle_exact_oracle(sc)
+        v, k3 = snapshot_oracle(sc)
+        if k3:
+            rep.known(k3)
+            stats["known"] = stats.get("known", 0) + 1
+        v = v or idle_exact_oracle(sc)
         qv, known, why = quiescence_oracle(sc)
+        if k3 and qv and "closed record" in qv.get("why", ""):
+            qv = None          # the same leaked record seen again at quiescence
         stats[why] = stats.get(why, 0) + 1
         if known:
             rep.known(known)
